@@ -2448,6 +2448,117 @@ theorem C06_history_sound (htr : TrRange tr trp) (ops : List Con) :
     obtain ⟨h3, h4, _⟩ := resultVar_bounds tr trp (s.assign c).1 (s.assign c).2 h2 h1
     exact ih (stepOp s c) h4 h3 hrest
 
+/-! ### Round 8: the fixed-variable map in the history invariant -/
+
+/-- invariant of `map_fixed_vars_`: every entry names an existing variable whose bounds are both the key -/
+def FixedInv (s : State) : Prop :=
+  ∀ kv ∈ s.fixed, kv.2 < s.vars.size ∧ (s.env kv.2).lb = kv.1 ∧ (s.env kv.2).ub = kv.1
+
+theorem fixedOK_of_inv (s : State) (h : FixedInv s) : FixedOK s := fun kv hk => (h kv hk).2
+
+theorem pushDef_fixedInv (s : State) (b : VarB) (con : Con) (h : FixedInv s) : FixedInv (s.pushDef b con) := by
+  intro kv hk
+  have hk' : kv ∈ s.fixed := hk
+  obtain ⟨h1, h2, h3⟩ := h kv hk'
+  refine ⟨?_, ?_, ?_⟩
+  · simp only [State.pushDef, Array.size_push]; omega
+  · rw [pushDef_env_lt s b con kv.2 h1]; exact h2
+  · rw [pushDef_env_lt s b con kv.2 h1]; exact h3
+
+theorem pushFixed_env_eq (s : State) (k : ER) : (s.pushFixed k).env s.vars.size = { lb := k, ub := k, int := false } := by
+  simp only [State.env, State.pushFixed]; exact getD_push_eq _ _ _
+
+theorem pushFixed_fixedInv (s : State) (k : ER) (h : FixedInv s) : FixedInv (s.pushFixed k) := by
+  intro kv hk
+  have hk' : kv = (k, s.vars.size) ∨ kv ∈ s.fixed := by simpa [State.pushFixed] using hk
+  rcases hk' with rfl | hk'
+  · refine ⟨by simp [State.pushFixed], ?_, ?_⟩ <;> simp only [] <;> rw [pushFixed_env_eq]
+  · obtain ⟨h1, h2, h3⟩ := h kv hk'
+    refine ⟨by simp only [State.pushFixed, Array.size_push]; omega, ?_, ?_⟩
+    · rw [pushFixed_env_lt s k kv.2 h1]; exact h2
+    · rw [pushFixed_env_lt s k kv.2 h1]; exact h3
+
+theorem finish_fixedInv (s : State) (pre : Pre) (con : Con) (h : FixedInv s) : FixedInv (s.finish pre con).1 := by
+  rw [finish_eq]
+  by_cases hc : pre.isConstant = true
+  · simp only [hc, if_true]; exact h
+  · simp only [hc]
+    cases s.mapFind con with
+    | some v => exact h
+    | none => exact pushDef_fixedInv s _ con h
+
+theorem makeFixed_fixedInv (s : State) (k : ER) (h : FixedInv s) : FixedInv (s.makeFixedVar k).1 := by
+  rw [makeFixed_eq]
+  cases s.fixed.find? (fun kv => eq kv.1 k) with
+  | some kv => exact h
+  | none => exact pushFixed_fixedInv s k h
+
+theorem resultVar_fixedInv (s : State) (r : Res) (h : FixedInv s) : FixedInv (State.resultVar (s, r)).1 := by
+  cases r with
+  | const k => simp only [State.resultVar]; exact makeFixed_fixedInv s k h
+  | var v => exact h
+  | throw w => exact h
+  | unsupported => exact h
+
+theorem assignBase_fixedInv (s : State) (c : Con) (h : FixedInv s) : FixedInv (s.assignBase c).1 := by
+  cases hd : preproO s.opts s.env c with
+  | keep pre c' => rw [assignBase_keep s c pre c' hd]; exact finish_fixedInv s pre _ h
+  | «alias» v => simp only [State.assignBase, hd]; exact h
+  | redirect c2 => simp only [State.assignBase, hd]; exact h
+  | raise w => simp only [State.assignBase, hd]; exact h
+  | unsupported => simp only [State.assignBase, hd]; exact h
+
+/-- `AssignResult2Args` keeps the fixed-variable map consistent (every covered kind: no argument narrowing) -/
+theorem assign_fixedInv (s : State) (c : Con) (hcov : Covered c) (h : FixedInv s) : FixedInv (s.assign c).1 := by
+  have han := argNarrowing_none' s.env c hcov
+  cases hd : preproO s.opts s.env c with
+  | keep pre c' =>
+    have : s.assign c = s.assignBase c := by simp only [State.assign, han, hd]
+    rw [this]; exact assignBase_fixedInv s c h
+  | «alias» v =>
+    have : s.assign c = s.assignBase c := by simp only [State.assign, han, hd]
+    rw [this]; exact assignBase_fixedInv s c h
+  | redirect c2 =>
+    have : (s.assign c).1 = (State.resultVar (s.assignBase c2)).1 := by
+      simp only [State.assign, han, hd]
+      cases (State.resultVar (s.assignBase c2)).2 <;> rfl
+    rw [this]
+    exact resultVar_fixedInv (s.assignBase c2).1 (s.assignBase c2).2 (assignBase_fixedInv s c2 h)
+  | raise w =>
+    have : s.assign c = (s, .throw w) := by simp only [State.assign, han, hd]
+    rw [this]; exact h
+  | unsupported =>
+    have : s.assign c = (s, .unsupported) := by simp only [State.assign, han, hd]
+    rw [this]; exact h
+
+/-- **history theorem, complete invariant**: every converter state reachable from a state that is well-formed, sound (`BoundsSound`) and
+has a consistent fixed-variable map (`FixedInv`; trivially true for the original variables: the map is empty) by ANY list of covered
+operations is again well-formed, sound and consistent.  In particular the hypothesis `FixedOK` of `C06_assign_sound` holds in every
+reachable state, so its outcome clause applies to every further operation without extra assumptions. -/
+theorem C06_history_invariant (htr : TrRange tr trp) (ops : List Con) :
+    ∀ s : State, s.WF → BoundsSound tr trp s → FixedInv s → AdmOps s ops →
+      BoundsSound tr trp (runOps s ops) ∧ (runOps s ops).WF ∧ FixedInv (runOps s ops) ∧ FixedOK (runOps s ops) := by
+  induction ops with
+  | nil => intro s hwf hb hfi _; exact ⟨hb, hwf, hfi, fixedOK_of_inv s hfi⟩
+  | cons c cs ih =>
+    intro s hwf hb hfi hadm
+    obtain ⟨hcov, ha, hrest⟩ := hadm
+    obtain ⟨h1, h2, _⟩ := assign_bounds tr trp s c hwf hb hcov ha htr
+    obtain ⟨h3, h4, _⟩ := resultVar_bounds tr trp (s.assign c).1 (s.assign c).2 h2 h1
+    have h5 : FixedInv (stepOp s c) := resultVar_fixedInv (s.assign c).1 (s.assign c).2 (assign_fixedInv s c hcov hfi)
+    exact ih (stepOp s c) h4 h3 h5 hrest
+
+/-- **every step of every history**: after any list of covered operations, a further covered operation keeps the invariant and what it
+returns equals the expression — `C06_assign_sound` with all its state hypotheses discharged by `C06_history_invariant`. -/
+theorem C06_history_step_sound (htr : TrRange tr trp) (ops : List Con) (s : State) (hwf : s.WF) (hb : BoundsSound tr trp s)
+    (hfi : FixedInv s) (hadm : AdmOps s ops) (c : Con) (hcov : Covered c) (ha : Adm (runOps s ops).env c) :
+    ∀ val, Feasible (runOps s ops).env val → DefsHold tr trp (runOps s ops) val →
+      Feasible ((runOps s ops).assign c).1.env val → DefsHold tr trp ((runOps s ops).assign c).1 val →
+      (∀ k, ((runOps s ops).assign c).2 = .const k → k = fin (Con.eval tr trp val c)) ∧
+      (∀ v, ((runOps s ops).assign c).2 = .var v → val v = Con.eval tr trp val c) := by
+  obtain ⟨h1, h2, _, h4⟩ := C06_history_invariant tr trp htr ops s hwf hb hfi hadm
+  exact (C06_assign_sound tr trp (runOps s ops) c h2 h4 h1 hcov ha htr).2
+
 /-- **division, guard**: whenever `PreprocessConstraint(DivConstraint&)` infers anything (its result differs from the default
 `(−∞, +∞)`), the divisor's box excludes 0, so `val b ≠ 0` at every feasible valuation: `C06_div` never relies on Lean's
 totalised `x / 0 = 0` (in the branch that infers nothing, the default bounds contain every value). -/
@@ -2574,5 +2685,8 @@ example : BoundsSound (fun _ _ => 1) (fun _ _ _ => 1)
   refine (C06_history_sound _ _ trRange_const_one _ exAbsState hwf hinit ?_).1
   exact ⟨by simp [Covered], fun _ => Or.inr (by decide +kernel), trivial, trivial, trivial, trivial, by simp [Covered], trivial,
     by simp [Covered], trivial, by simp [Covered, KindOK], trivial, by simp [Covered, KindOK], trivial, trivial⟩
+
+/-- non-vacuity: the empty fixed-variable map of the original variables satisfies `FixedInv` -/
+example : FixedInv exAbsState := fun kv h => by simp [exAbsState] at h
 
 end MpVerif.C06
